@@ -73,7 +73,7 @@ claim("C13", "DESIGN.md section 4 C13 + section 11",
       "maps it back type-exactly, that every str becomes one identical string constant (never parsed as code), and that nothing is altered beyond those limits (refusal); "
       "check_ast passes exactly on transportable constants over all node classes, and the As*/MetaData entry points put each argument in its wire position, both over generated tables. "
       "Partial: float tokens are opaque; repr of non-printable non-ASCII code points is not modelled (the composite as_ast is compared on such strings).",
-      "CPython's float shortest-repr round trip is trusted; ast.literal_eval is the oracle; None is deliberately not transportable inside lambdas (check_ast refusal).")
+      "CPython's float shortest-repr round trip is trusted; ast.literal_eval is the oracle; None is deliberately not transportable inside lambdas (check_ast refusal: the code's table of wire types, which the model reads); the gate is type-exact since F38 (instances of subclasses of the legal scalar types are refused).")
 claim("C04", "DESIGN.md section 4 C04/C05 + section 11",
       'proof (partial): Coq theorems over the executable model of _rewrite_captured_vars/check_ast: capture_freezes_partial as an equation for every expression and every snapshot whose occurring names are bound to int/bool/str/None literals (the recorded lambda needs nothing from any later environment), capture_then_resolve_partial, capture_respects_scope / capture_stack_is_erasure / capture_params_never_replaced / capture_bound_name_kept (all trees), capture_gate / capture_gate_pipeline (check_ast accepts exactly the legal constant kinds of the generated table). Partial: names holding classes, modules, enums (attribute folding) and helpers have no counterpart in the reference semantics; they are covered by exact differential correspondence on generated Python programs (closures, globals at any nesting depth, class constants, module attributes, enums, every shadowing pattern, the same callable passed again after rebinding) with a value oracle against the real callable after every captured name has been rebound or deleted.',
       'What inspect.getclosurevars / getattr report and source recovery are inputs of the model (validated by correspondence only).')
@@ -103,7 +103,7 @@ claim("C15", "DESIGN.md section 4 C15 + section 11",
       "literal_eval modelled on Constant/Tuple/List/Dict/unary +- with key de-duplication; sets, complex arithmetic, float keys and raw strings are excluded from the correspondence and counted.")
 claim("C17", "DESIGN.md section 4 C17 + section 11",
       "proof: ext_exact / ext_complete / ext_idem / ext_fixpoints for the generated operator list and for any function_names list; ext_sem for every backend and environment under ops_kw_free "
-      "(method-form operator calls carry no keywords - the code drops them, which is outside the stated form seq.Op(args...)); first-order reference semantics.",
+      "(method-form operator calls carry no keywords; since F39 the keywords of a rewritten call are kept and rewritten too - ext_exact states it, the structural oracle requires it - but the reference semantics hands method-form and function-form keyword calls to different backend hooks); a regraft oracle checks that the result depends on the tree only; first-order reference semantics.",
       "Operator list regenerated from source and cross-checked against the imported module; pyref_lite is used only to find failing inputs.")
 
 claim("C05", "DESIGN.md section 4 C04/C05 + section 11",
